@@ -8,7 +8,9 @@ HERE="$(cd "$(dirname "$0")/.." && pwd)"
 OUT=/dev/shm/dsim-seeded-$ID
 rm -rf "$OUT"; mkdir -p "$OUT"
 git -C /repo diff --quiet || { echo "/repo is not clean"; exit 2; }
-git -C /repo apply "$HERE/seeded/$ID/patch.diff" || { echo "patch does not apply"; exit 2; }
+# patch.rebased.diff: the same change re-cut for the current tree when later fix commits touched the same lines
+P="$HERE/seeded/$ID/patch.diff"; [ -f "$HERE/seeded/$ID/patch.rebased.diff" ] && P="$HERE/seeded/$ID/patch.rebased.diff"
+git -C /repo apply "$P" || { echo "patch does not apply"; exit 2; }
 DSIM_OUT="$OUT" DSIM_BUDGET_S=$BUDGET "$HERE/check" "$PROP" --tier quick > "$OUT/out.txt" 2>&1
 RC=$?
 git -C /repo checkout -- .
